@@ -28,6 +28,13 @@ type CutoffStep struct {
 	Back bool   `json:"back"` // set the key back to an earlier value (shared nodes)
 	Cut  int    `json:"cut"`  // vacuum: index into the creation times
 	Off  int    `json:"off"`  // vacuum: -1, 0, +1 second relative to that time
+	// Stale (vacuum): the vacuuming handle is NOT re-opened first: it has not merged what the
+	// other branch committed since; versions outside its ancestry that the cutoff does not
+	// cover must stay readable all the same (the reclaim clause is not demanded of it)
+	Stale bool `json:"stale,omitempty"`
+	// CutOther (vacuum): the cutoff is the opening time of the OTHER branch's handle (+Off): what
+	// that branch has committed since is not covered, what both started from is
+	CutOther bool `json:"cut_other,omitempty"`
 }
 
 type CutoffCase struct {
@@ -48,10 +55,31 @@ func genCutoffCase(t *rapid.T) CutoffCase {
 			s.Op = "merge"
 		default:
 			s.Op = "vacuum"
+			s.Stale = rapid.IntRange(0, 2).Draw(t, "stale") == 0
 		}
 		c.Steps = append(c.Steps, s)
 	}
 	c.Steps = append(c.Steps, CutoffStep{Op: "vacuum", Cut: rapid.IntRange(0, 30).Draw(t, "lastcut"), Off: rapid.IntRange(-1, 1).Draw(t, "lastoff")})
+	if rapid.IntRange(0, 3).Draw(t, "stalepattern") == 0 {
+		// Targeted region: both branches start from one version; branch a changes one part of
+		// the tree; branch b, without seeing that, commits twice (elsewhere, then the same part),
+		// so its first version is retired by its second and lies outside a's ancestry; a, still
+		// not having merged b, deletes history with the cutoff at b's opening time: the common
+		// start is covered, b's two versions are not
+		a := rapid.IntRange(0, 1).Draw(t, "spa")
+		b := 1 - a
+		var pat []CutoffStep
+		for k := 1; k <= 6; k++ {
+			pat = append(pat, CutoffStep{Op: "commit", B: a, Key: k})
+		}
+		pat = append(pat,
+			CutoffStep{Op: "merge", B: a}, CutoffStep{Op: "merge", B: b},
+			CutoffStep{Op: "commit", B: a, Key: 1},
+			CutoffStep{Op: "commit", B: b, Key: 6}, CutoffStep{Op: "commit", B: b, Key: 1},
+			CutoffStep{Op: "vacuum", B: a, Stale: true, CutOther: true, Off: rapid.IntRange(-1, 0).Draw(t, "spoff")})
+		pos := rapid.IntRange(0, len(c.Steps)).Draw(t, "sppos")
+		c.Steps = append(append(append([]CutoffStep{}, c.Steps[:pos]...), pat...), c.Steps[pos:]...)
+	}
 	return c
 }
 
@@ -200,13 +228,23 @@ func runCutoff(c CutoffCase, o *Obs) error {
 				continue
 			}
 			cut := times[s.Cut%len(times)] + int64(s.Off)
-			// vacuum from a handle that has merged everything
-			b.db.Cancel()
-			nb, err := open()
-			if err != nil {
-				return fmt.Errorf("%s: %v", where, err)
+			if s.CutOther {
+				cut = br[(s.B+1)%2].when + int64(s.Off)
 			}
-			br[s.B%2] = nb
+			// vacuum from a handle that has merged everything, or (Stale) from the branch's
+			// handle as it is
+			nb := b
+			if !s.Stale {
+				b.db.Cancel()
+				var err error
+				nb, err = open()
+				if err != nil {
+					return fmt.Errorf("%s: %v", where, err)
+				}
+				br[s.B%2] = nb
+			} else {
+				o.Class("vacuum-from-a-handle-that-has-not-merged-the-other-branch")
+			}
 			present := map[string]bool{}
 			for _, n := range append(trimAll(store.Keys(prefix+"root/current/"), prefix+"root/current/"), trimAll(store.Keys(prefix+"root/merged/"), prefix+"root/merged/")...) {
 				present[n] = true
@@ -259,7 +297,7 @@ func runCutoff(c CutoffCase, o *Obs) error {
 				}
 				// C10: a version all of whose successors were created strictly before the cutoff is gone
 				ch := children[n]
-				if len(ch) > 0 && after[n] {
+				if len(ch) > 0 && after[n] && !s.Stale {
 					all := true
 					for _, cn := range ch {
 						if vers[cn] == nil || vers[cn].created >= cut {
